@@ -843,11 +843,11 @@ theorem classOf_lt {w : PWorld} {t : Oid} {c : PClass} (h : classOf w t = some c
 /-- **the rebuild**: with every installed watcher recorded in `dynamic_watchers[m]`, an
 `_update_deps(attribute)` that applies (`attribute` is `None` or the root of the spec) removes them all
 and installs exactly the watchers the current graph needs -/
-theorem rebuild (w : PWorld) (t : Oid) (m : Name) (s : PathSpec) (attrib : Option Name)
+theorem rebuild_gen (w : PWorld) (t : Oid) (m : Name) (s : PathSpec) (attrib : Option Name) (init : Bool)
     (hs : Scope w t m s) (hsimple : (chainObjsFrom w t s.path).Nodup)
     (hown : ∀ x ∈ w.watchers, x.id ∈ dynGet w.dyn (t, m)) (hkeys : ∀ e ∈ w.dyn, e.1 = (t, m))
-    (hattr : attrib = none ∨ attrib = some s.root) :
-    ∃ w', updateDeps w t attrib false = .ok w' ∧ SameGraph w w' ∧ w'.log = w.log ∧ Installed w' t m s := by
+    (hattr : attrib = none ∨ attrib = some s.root) (hinit : init = true → w.watchers = [] ∧ w.dyn = []) :
+    ∃ w', updateDeps w t attrib init = .ok w' ∧ SameGraph w w' ∧ w'.log = w.log ∧ Installed w' t m s := by
   obtain ⟨ct, hct, hm⟩ := hs.tcls
   have htl : t < w.objs.length := classOf_lt hct
   -- the state after `dynamic_watchers.pop(method)` and the `unwatch` loop
@@ -903,7 +903,17 @@ theorem rebuild (w : PWorld) (t : Oid) (m : Name) (s : PathSpec) (attrib : Optio
     have hf2 : ∀ (f : PathSpec → Bool), f s = true → [s].filter f = [s] := by intro f h; simp [h]
     rw [hf2 _ (by rcases hattr with rfl | rfl <;> simp)]
     simp only [List.isEmpty_cons, Bool.and_false, Bool.false_eq_true, if_false]
-    rw [hw1, hgroups]
+    have hw1' : (if init = true then w else
+        { w with watchers := w.watchers.filter (fun x => !((dynGet w.dyn (t, m)).contains x.id)),
+                 dyn := w.dyn.filter (fun e => e.1 ≠ (t, m)) }) = w1 := by
+      cases init with
+      | false => simpa using hw1
+      | true =>
+        obtain ⟨e1, e2⟩ := hinit rfl
+        rw [← hw1def]
+        cases w
+        simp_all
+    rw [hw1', hgroups]
     simp only [h1]
   · rw [h3]; subst hw1def; rfl
   · rw [hwat1, List.nil_append] at h4
@@ -954,5 +964,12 @@ theorem rebuild (w : PWorld) (t : Oid) (m : Name) (s : PathSpec) (attrib : Optio
           subst hr2
           exact hattr
         · simp at hr2
+
+theorem rebuild (w : PWorld) (t : Oid) (m : Name) (s : PathSpec) (attrib : Option Name)
+    (hs : Scope w t m s) (hsimple : (chainObjsFrom w t s.path).Nodup)
+    (hown : ∀ x ∈ w.watchers, x.id ∈ dynGet w.dyn (t, m)) (hkeys : ∀ e ∈ w.dyn, e.1 = (t, m))
+    (hattr : attrib = none ∨ attrib = some s.root) :
+    ∃ w', updateDeps w t attrib false = .ok w' ∧ SameGraph w w' ∧ w'.log = w.log ∧ Installed w' t m s :=
+  rebuild_gen w t m s attrib false hs hsimple hown hkeys hattr (fun h => by cases h)
 
 end ParamVerif.Depends
